@@ -10,8 +10,9 @@ Configuration serde + serde_repr (K3; K4 = without std in the thorough tier).  T
     TryFrom, whose own construction sites are audited like any other code);
   * types whose validity is exactly the validity of their fields need only: no unsafe construct.
 Declined: "the natural representation of every valid value deserializes to an equal value" depends
-on serde's data model at run time; only its shape condition is checked (the try_from source type
-can represent what Serialize emits).
+on serde's data model at run time; only its shape condition is checked: the try_from source type
+can represent what Serialize emits (integers), and a struct / tuple mirror named by
+serde(try_from = ...) has the serialized type's fields with the same names, types and order.
 """
 from .. import audit, scan, invariants, terms as T
 from ..terms import VS
@@ -143,6 +144,61 @@ def sites_clause(chk, F, A, base_fns=None):
                expected='TryFrom<u16> exists and the serialized representation %s fits u16' % rep, found=ok, nontrivial=False)
 
 
+def mirror_shape_clause(chk, F):
+    """round trips through a `serde(try_from = "S")` mirror: what the derived Serialize of T writes (T's fields, by
+    name and in declaration order) must be what the derived Deserialize of S reads (S's fields, by name for map
+    formats, by position for sequence formats)"""
+    from ..mirpp import ty_str
+    cfg = F.cfg
+    pairs = {}
+    ser_via = {}
+    for site, c, t in scan.call_sites(F):
+        if not c or not scan.is_serde_generated(F, site[0]):
+            continue
+        a = c.get('args') or []
+        if c.get('path') == 'core::convert::TryFrom::try_from' and len(a) >= 2 and a[0].get('k') == 'adt' and 'Deserialize' in site[0]:
+            pairs[a[0]['path']] = a[1]
+        if c.get('path') in ('core::convert::Into::into', 'core::convert::From::from') and 'Serialize' in site[0] and 'Deserialize' not in site[0]:
+            tys = [x for x in a if x.get('k') == 'adt']
+            if len(tys) >= 2:
+                ser_via[tys[0]['path'] if c.get('path').endswith('into') else tys[1]['path']] = tys[1] if c.get('path').endswith('into') else tys[0]
+    n = 0
+    for tp, sty in sorted(pairs.items()):
+        if tp in midi.PATH_NEWTYPE or tp not in F.adts:
+            continue        # the six integer types: roundtrip-shape obligations below
+        n += 1
+        tad = F.adts[tp]
+        key = '%s/roundtrip-shape/%s/%s' % (PID, cfg, short_ty(tp))
+        tfields = [(f['name'], ty_str(f['ty'])) for f in tad['variants'][0]['fields']]
+        via = ser_via.get(tp)
+        if via is not None:
+            same = ty_str(via) == ty_str(sty)
+            chk.ob(key, 'round-trip shape condition', 'proved' if same else 'unproven', subject={'at': tad['span']['at'], 'type': tp},
+                   expected='serialized through the same mirror type it is deserialized from', found='into %s / try_from %s' % (ty_str(via), ty_str(sty)),
+                   why='' if same else 'serialization and deserialization go through different intermediate types', nontrivial=False)
+            continue
+        if sty.get('k') == 'adt' and sty['path'] in F.adts:
+            sfields = [(f['name'], ty_str(f['ty'])) for f in F.adts[sty['path']]['variants'][0]['fields']]
+            ok = sfields == tfields
+            why = ''
+            if not ok:
+                if sorted(sfields) == sorted(tfields):
+                    why = 'same fields in a different order: formats that write structs as sequences read them crosswise (%s vs %s)' % (
+                        [n_ for n_, _ in tfields], [n_ for n_, _ in sfields])
+                else:
+                    why = 'the mirror %s does not have the fields the serialized %s has: %s vs %s' % (sty['path'].split('::')[-1], short_ty(tp), sfields, tfields)
+            chk.ob(key, 'round-trip shape condition', 'proved' if ok else 'refuted', subject={'at': F.adts[sty['path']]['span']['at'], 'type': sty['path']},
+                   expected='the deserialization mirror has the fields of %s: same names, types and order' % short_ty(tp), found=[n_ for n_, _ in sfields], why=why)
+        elif len(tfields) == 1:
+            ok = tfields[0][1] == ty_str(sty)
+            chk.ob(key, 'round-trip shape condition', 'proved' if ok else 'refuted', subject={'at': tad['span']['at'], 'type': tp},
+                   expected='the try_from source type is the type of the single serialized field (%s)' % tfields[0][1], found=ty_str(sty),
+                   why='' if ok else 'the serialized form of %s is its field of type %s, deserialization expects %s' % (short_ty(tp), tfields[0][1], ty_str(sty)))
+        else:
+            chk.ob(key, 'round-trip shape condition', 'unproven', why='try_from source %s of a multi-field struct is not a struct' % ty_str(sty), nontrivial=False)
+    return n
+
+
 def run(tier, cmd):
     chk = Check(PID, tier, 'other',
                 'construction-site audit (value-set abstract interpretation, struct invariants) of the derive-generated Deserialize '
@@ -165,4 +221,5 @@ def run(tier, cmd):
         if A is not None:
             chk.extra.setdefault('functions_interpreted', {})[cfg] = len(A.fns_entered)
             guarded(chk, '%s/sites/%s' % (PID, cfg), 'deserialization construction site', lambda F=F, A=A: sites_clause(chk, F, A, bases.get(F.cfg)))
+            guarded(chk, '%s/mirror-shape/%s' % (PID, cfg), 'round-trip shape condition', lambda F=F: mirror_shape_clause(chk, F))
     return chk.finish()
